@@ -1,5 +1,116 @@
-(* C22 -- placeholder while the correspondence is being established. *)
-From Coq Require Import ZArith List Bool.
-Require Import Grist.Lib.PyFloat Grist.Model.Values.
-Example C22_placeholder : is_int_short 5 = true.
-Proof. reflexivity. Qed.
+(* C22 -- Cell value conversion is total and idempotent.
+   convert / do_convert / is_right_type are Model/Values.v (usertypes.py as coded), for every library oracle
+   `orc`.  Statements only; proofs are in Proofs/Values_proofs.v.
+
+   Full statement (C22_full): for every type T and value v, convert T v is v itself when v is an error and
+   otherwise a right-type value or a text, and convert T (convert T v) = convert T v.
+   The unchanged code violates it in four ways, each with a witness below; the positive theorems exclude
+   exactly these. *)
+From Coq Require Import ZArith List Bool String.
+Import ListNotations.
+Require Import Grist.Lib.PyFloat Grist.Model.Values Grist.Proofs.Values_proofs.
+Open Scope Z_scope.
+
+Definition C22_full : Prop := forall orc T v,
+  total_at orc T v /\ convert orc T (convert orc T v) = convert orc T v.
+
+(* ---- totality ------------------------------------------------------------------------------- *)
+
+(* Every type but Blob: the error unchanged, or (never an error) a value of the type or a text.
+   rows_ok: row ids inside record sets handed to a reference-list type are valid (short) row ids. *)
+Theorem C22_convert_total_partial : forall orc T v, T <> TBlob -> rows_ok T v -> total_at orc T v.
+Proof. exact convert_total. Qed.
+
+(* Blob.do_convert is the identity: 5 comes back as 5, which is not bytes/None, not an error, not text. *)
+Theorem C22_refuted_blob : forall orc, ~ total_at orc TBlob (PInt false 5).
+Proof.
+  intros orc [[H _]|[_ [_ [H|H]]]]; cbn in H; discriminate.
+Qed.
+
+(* ---- idempotence ---------------------------------------------------------------------------- *)
+
+(* A second conversion returns the same value (Leibniz equality on V: same type, same content, same float
+   bits with one NaN -- stronger than "same type and same encoding") provided
+   (1) when the first conversion of a non-text value fell back to str(v), that text converts to itself, and
+   (2) the first result is not degenerate: () for ChoiceList, [] / RecordList for RefList and Attachments. *)
+Theorem C22_convert_idem_partial : forall orc T v, rows_ok T v ->
+  (forall s, is_text v = false -> fallback_text orc T v = Some s -> convert orc T (PStr false s) = PStr false s) ->
+  ~ degenerate T (convert orc T v) ->
+  convert orc T (convert orc T v) = convert orc T v.
+Proof. exact convert_idem. Qed.
+
+(* Text, Choice, Any and Blob: idempotent for every value, no condition. *)
+Theorem C22_convert_idem_textlike : forall orc T v, T = TText \/ T = TChoice \/ T = TAny \/ T = TBlob ->
+  convert orc T (convert orc T v) = convert orc T v.
+Proof. exact convert_idem_textlike. Qed.
+
+(* Defaults are right-type values and fixed points of conversion. *)
+Theorem C22_default_right_type : forall T, is_right_type T (default_value T) = true.
+Proof. exact default_right_type. Qed.
+
+Theorem C22_default_fixed : forall orc T, convert orc T (default_value T) = default_value T.
+Proof. exact default_fixed. Qed.
+
+(* Refutation of (1): the AltText "2020-01-01" in a Date column becomes the text "2020-01-01" (Date.do_convert
+   has no AltText branch), which a second conversion parses into a timestamp.  Needs only that iso8601
+   accepts that string. *)
+Theorem C22_refuted_idem_fallback : forall orc wall off,
+  o_iso_parse orc (Str "2020-01-01") = Some (wall, off) ->
+  let v := PAltText (Str "2020-01-01") in
+  convert orc TDate v = PStr false (Str "2020-01-01") /\
+  convert orc TDate (convert orc TDate v) <> convert orc TDate v.
+Proof.
+  intros orc wall off H v. assert (H1 : convert orc TDate v = PStr false (Str "2020-01-01")) by reflexivity.
+  split; [exact H1|]. rewrite H1. unfold convert. cbn [is_error do_convert].
+  unfold date_do_convert.
+  change (is_empty_or_none (PStr false (Str "2020-01-01"))) with false. cbv iota.
+  unfold parse_iso_date. rewrite H. cbn [bind]. discriminate.
+Qed.
+
+(* Refutation of (2): a record set converts to a RecordList, which converts to a plain list ... *)
+Theorem C22_refuted_idem_recordlist : forall orc,
+  let v := PRecordSet (Str "T") RList [1; 2] 0 in
+  convert orc (TRefList (Str "T")) v = PList (LRecordList 0) [PInt false 1; PInt false 2] /\
+  convert orc (TRefList (Str "T")) (convert orc (TRefList (Str "T")) v) = PList LPlain [PInt false 1; PInt false 2].
+Proof. intros orc; split; reflexivity. Qed.
+
+(* ... and the empty record set to RecordList([]), which converts to None. *)
+Theorem C22_refuted_idem_empty : forall orc,
+  let v := PRecordSet (Str "T") RList [] 0 in
+  convert orc (TRefList (Str "T")) v = PList (LRecordList 0) [] /\
+  convert orc (TRefList (Str "T")) (convert orc (TRefList (Str "T")) v) = PNone.
+Proof. intros orc; split; reflexivity. Qed.
+
+(* ---- non-vacuity ---------------------------------------------------------------------------- *)
+
+Definition no_tables : tables := Build_tables [] [] [] [] [] [] [] [] [] [] [] [] [] [] [] [] [] [].
+
+(* 12.5 in an Int column: converted (12), right type, idempotent; the hypotheses of the theorems hold. *)
+Example C22_nonvacuous_int :
+  let orc := oracles_of no_tables in
+  let v := PFloat false (FNum 25 (-1)) in
+  convert orc TInt v = PInt false 12 /\ rows_ok TInt v /\ TInt <> TBlob /\
+  fallback_text orc TInt v = None /\ ~ degenerate TInt (convert orc TInt v).
+Proof. cbv zeta. repeat split; try reflexivity; try discriminate. intro H; exact H. Qed.
+
+(* A list in an Int column takes the except path; with the library's answers (str([1]) = "[1]", float("[1]")
+   fails) the text is stable, so hypothesis (1) is satisfiable on a fallback. *)
+Example C22_nonvacuous_fallback :
+  let v := PList LPlain [PInt false 1] in
+  let orc := oracles_of (Build_tables [(Str "[1]", None)] [] [] [] [(v, Some (Str "[1]"))] [] [] [] [] [] [] [] [] [] [] [] [] []) in
+  fallback_text orc TInt v = Some (Str "[1]") /\
+  convert orc TInt (PStr false (Str "[1]")) = PStr false (Str "[1]") /\
+  convert orc TInt (convert orc TInt v) = convert orc TInt v.
+Proof. cbv zeta. repeat split; vm_compute; reflexivity. Qed.
+
+(* two record sets in a RefList column: flattened, de-duplicated, right type, stable *)
+Example C22_nonvacuous_reflist :
+  let orc := oracles_of no_tables in
+  let T := TRefList (Str "T") in
+  let v := PList LPlain [PRecordSet (Str "T") RList [1; 2] 0; PRecordSet (Str "T") RTuple [2; 3] 0] in
+  rows_ok T v /\ convert orc T v = PList LPlain [PInt false 1; PInt false 2; PInt false 3] /\
+  convert orc T (convert orc T v) = convert orc T v.
+Proof.
+  cbv zeta. split; [|split]; [|vm_compute; reflexivity|vm_compute; reflexivity].
+  cbn [rows_ok rows_short]. intros t k rows i [H|[H|[]]]; inversion H; reflexivity.
+Qed.
